@@ -53,5 +53,26 @@ CHECKS += [
          text="overbook with overcommit on 1-2 pools x 1-3 CPUs x 4/8 GB with pool-killer-triggering profiles: each assignment = one ready operator, 1 CPU, RAM = pool capacity; never more containers than CPUs; no ready operator of a live pipeline waits while a CPU is free after a triggered round; no assignment after 3 failed containers.",
          note=TRUST),
 ]
+
+CHECKS += [
+    dict(property_id="C07", technique="exhaustive enumeration of ordered run histories in one interpreter vs fresh interpreters, of hash seeds x identifier generators, of all 720 identifier orders, and of a seeds x non-workload-settings grid; canonical event-log equality",
+         text="All 64 (quick) / 512 (thorough) ordered histories over 8 configurations: every run's canonical tick-by-tick log and statistics equal the same configuration alone in a fresh interpreter; PYTHONHASHSEED 0..3/0..11 x {real uuid4 twice, ascending, descending, scrambled identifiers}; all 720 relative orders of a diamond pipeline's identifiers; generated workload identical across 48 scheduler/executor settings per seed and through run_simulator, all seed pairs differ.",
+         note="Bounded enumerations of unbounded spaces (hash seeds, identifier values through their relative orders). Child interpreters cost ~0.8 s each."),
+    dict(property_id="C13", technique="exhaustive enumeration of the (tick, tick-rate) grid through the real trace writer/reader/replayer with an exact rational oracle",
+         text="Every tick 0..2000 (quick) / 0..50000 (thorough) plus windows at 10^6 and 10^7 for ten tick rates (gentrace round trip), hand-written decimal arrivals on/off the grid with 0-3 pipelines per value, gaps and arrivals beyond the end for 13 tick rates, and the real gentrace CLI against a fresh generator: delivered exactly once, in the exact tick, in file order.",
+         note="Known finding F-C13-grid-arrival-one-tick-late (exact predicate evaluated by the checker) is reported as KNOWN-FINDING; anything else is a violation."),
+    dict(property_id="C14", technique="exhaustive enumeration of all DAGs on <=5/6 nodes x value alphabets through the real writer and reader; every single-rule corruption of a valid file",
+         text="1 099 (quick) / 33 867 (thorough) DAG shapes with cycled value alphabets (0, 1, 15, 0.1, 37.5, 1e-9, 1e9, 1/3; 7 laws; memory unset/0/0.5), 1-3 pipelines per arrival, plus the full per-field product on a single operator: write->read structure equality, read->write row equality; 24 corrupted files must be refused.",
+         note="Values are cycled over DAGs, not the full product per DAG."),
+    dict(property_id="C15", technique="the generator's RNG replaced by an enumerating environment: all answer sequences up to a deviation bound; exact discretised expectations over 256 quantiles; seed range",
+         text="All answer sequences with <=2/3 non-default answers (class choices, z in an 8-point grid) over 3 arrival events for num_pipelines 1-3 x num_operators 1,2,5 x waiting mean 0.4/3/50 ticks x probability triples with zeros; argument binding for all 66 triples; operator-count, gap and prototype-rank distributions computed exactly over 256 equiprobable quantiles for cpu_io_ratio 0..1; the real numpy generator for 64/2000 seeds.",
+         note="Assumes numpy's normal/choice follow their arguments. Distribution clauses are decided over a discretised RNG."),
+    dict(property_id="C19", technique="stateless deviation-bounded exhaustive exploration of external decision sequences against the real run_simulator(rest) over an in-process JSON transport; ground-truth comparison at every call; in-process replay equivalence; loop-back HTTP conformance",
+         text="All reply sequences with <=2/3 non-default replies over <=10 calls for poll intervals 0/0.5/1/2.5, tick rates 1,(2),10, 1-2 pools, both container modes: every request equals ground truth (results, pools, containers, operator states), tainted segment figures never appear, new/other disjoint, completion reported once, call timing, decisions executed as given, statistics equal an in-process replay; six traces repeated over a real loop-back http.server.",
+         note="The Go reference scheduler is not built or run (no Go toolchain in the image)."),
+    dict(property_id="C20", technique="exhaustive enumeration of the (arrival, tick-rate) grid through the real snap tool with an exact Decimal oracle; jitter with numpy's generator replaced by an enumerating one (all answer sequences); in-process sensitivity-sample",
+         text="snap: every grid point k/tps (k<=2000/50000) and off-grid points for 13 decimal tick rates, whole seconds and mid-points for 3,7,60: never up, less than a tick, onto a boundary, idempotent, other columns intact. jitter: all 3^n answer sequences for traces of <=4 pipelines with ties/gaps, seeds 0..63/999 twice each. sensitivity-sample: the real command in-process, workload i = seed start_seed+i, samples differ.",
+         note="jitter's distribution is not tested, only bounds/order/reproducibility."),
+]
 _PENDING = "check not built yet in this session; will be claimed when its driver exists"
 NOT_APPLICABLE = [dict(property_id=f"C{i:02d}", reason=_PENDING) for i in range(1, 21) if f"C{i:02d}" not in {c["property_id"] for c in CHECKS}]
